@@ -14,6 +14,7 @@ import (
 	"bytes"
 	"context"
 	"fmt"
+	"math"
 	"math/rand"
 	"net"
 	"net/http"
@@ -127,11 +128,16 @@ func runCase(res *vkit.Result, c Case) {
 	var maxL1Fired, minL2Disc time.Duration = 0, 1 << 62
 	var samples []map[string]any
 	plan := vkit.NewGunPlan()
+	var entriesMu sync.Mutex
+	var entries []time.Time
 	var runStart atomic.Value
 	plan.OnShoot = func(g *vkit.MockGun, a *vkit.MockAmmo, entry time.Time) {
 		if rs, ok := runStart.Load().(time.Time); ok && lead > 0 && entry.Before(rs.Add(lead)) {
 			fail("before-profile", "a request was fired %v after the start of the run; the profile holds no request in its first %v", entry.Sub(rs), lead)
 		}
+		entriesMu.Lock()
+		entries = append(entries, entry)
+		entriesMu.Unlock()
 		tr, ok := rec.Last(vkit.Goid())
 		if !ok {
 			res.Inconclusive(false, "shot without a recorded token")
@@ -240,6 +246,34 @@ func runCase(res *vkit.Result, c Case) {
 	if fired+discarded != tokens {
 		fail("accounting", "%d tokens but %d fired + %d discarded", tokens, fired, discarded)
 	}
+	// the documented curve, not only the schedule's own word for it: with a plain shared const or
+	// line profile that starts with the run, the k-th earliest shot uses a request numbered k or
+	// higher, which the profile places no earlier than the instant at which its rate curve reaches k
+	if plain := !c.UnlimOnly && c.Once == 0 && c.Lead == "" && c.UnlimMs == 0 && c.GapMs == 0 && c.PreStartMs == 0 && !c.PerInstance; plain {
+		entriesMu.Lock()
+		sortTimes(entries)
+		a, b := 0.0, c.From
+		if c.Line {
+			a = (c.To - c.From) / d.Seconds()
+		}
+		for k, e := range entries {
+			var tk float64
+			if a > 1e-9 || a < -1e-9 {
+				tk = (math.Sqrt(2*a*float64(k)+b*b) - b) / a
+			} else if b > 0 {
+				tk = float64(k) / b
+			}
+			if math.IsNaN(tk) || math.IsInf(tk, 0) {
+				break
+			}
+			if lb := t0.Add(time.Duration(tk*1e9) - 10*time.Microsecond); e.Before(lb) {
+				fail("before-documented-time", "the %d-th shot came %v after the start of the run; the profile's rate curve reaches %d only at +%v", k+1, e.Sub(t0), k, time.Duration(tk*1e9))
+				break
+			}
+		}
+		res.Count("shots_judged_against_the_documented_curve", int64(len(entries)))
+		entriesMu.Unlock()
+	}
 	if known > 0 && fired+discarded < known {
 		fail("known-part-not-fired", "the parts of known size hold %d requests, only %d were fired and %d discarded: the run ended %.2f s after its start, before the profile did", known, fired, discarded, run.Seconds())
 	}
@@ -269,6 +303,8 @@ func base() []Case {
 	return []Case{
 		{Name: "all-fast", Instances: 2, From: 40, DurMs: 1500, Discard: true, ShotMs: 1, StallAt: -1},
 		{Name: "all-fast", Instances: 1, From: 25, DurMs: 1200, Discard: false, ShotMs: 0, StallAt: -1},
+		{Name: "all-fast", Instances: 4, Line: true, From: 1, To: 11, DurMs: 2500, Discard: false, ShotMs: 0, StallAt: -1},
+		{Name: "all-fast", Instances: 2, Line: true, From: 12, To: 2, DurMs: 1700, Discard: true, ShotMs: 1, StallAt: -1},
 		// one long stall: tokens scheduled during the stall are late when the instance comes back
 		{Name: "one-stall", Instances: 1, From: 20, DurMs: 4000, Discard: true, ShotMs: 1, StallAt: 4, StallMs: 2600},
 		{Name: "one-stall", Instances: 1, From: 20, DurMs: 3500, Discard: false, ShotMs: 1, StallAt: 4, StallMs: 2600},
